@@ -31,6 +31,8 @@
     `joinPoint_join_applies`; `dropPoint_pass2_through_fitter` (an answer of `drop_point`'s second pass never fits
     trivially: the edit is the Fitter's); `insertPoint_insert_succeeds_marked_partial` (a node with marks the parent does
     not allow: the Fitter inserts it with those marks dropped — proved for that answer of the Fitter);
+    `insertGuard_of_text` / `insertPoint_insert_text_applies` (for a text node the inside-text guard follows from the
+    approval: typing succeeds at every insert point); `insertPoint_marked_through_fitter`;
     `canChangeType_setNodeMarkup_applies` / `…_leaf_applies` (`changeTypeGuard`: the new type accepts the node's children —
     `can_change_type` does not look — and the parent allows the new marks).  Counterexamples
     `insertPoint_needs_guard_marks/_text`, `dropPoint_needs_guard`, `joinPoint_needs_guard`, `canChangeType_needs_guard`.
@@ -1819,6 +1821,84 @@ theorem insertPoint_marked_through_fitter (S : Schema) (doc : Node) (pos : Nat) 
       exact ⟨hft, rf, hrf, hrs⟩
 
 example : marksAllowedAt insMarkSchema exDoc 0 (.elem 2 [] [⟨0, []⟩] []) = false := by rfl
+
+/-! ### typing: for a text node the inside-text guard is implied
+
+    In a `TextStable` schema the approval "a text node may go in front of this text child" already gives "`text n text`
+    may stand in its place" for a text node `n`: `insertGuard` reduces to its marks part and the alignment of the
+    position.  So `insertPoint_insert_applies` covers every insert point for text, at child boundaries and inside text
+    alike, with no guard on the content expression. -/
+
+theorem insertGuard_of_text (S : Schema) (hts : C01.TextStable S) (doc : Node) (pos : Nat) (p : Nat) (n : Node)
+    (hdoc : C01.IsElem doc) (hv : C01.Valid S doc) (hn : fnorm doc.kids = true)
+    (htext : S.tyOf n = S.textTy) (hal : pairAligned doc p = true) (hm : marksAllowedAt S doc p n = true)
+    (hc : insertPoint S doc pos S.textTy = some (some p)) : insertGuard S doc p n = true := by
+  unfold insertPoint at hc
+  cases hr : doc.resolve pos with
+  | none => simp [hr] at hc
+  | some r =>
+    simp only [hr] at hc
+    have R := resolve_resolved hr
+    cases doc with
+    | text s m => simp [C01.IsElem, Node.isLeaf] at hdoc
+    | leaf t a m => simp [C01.IsElem, Node.isLeaf] at hdoc
+    | elem ty0 a0 m0 K =>
+      have hn' : fnorm K = true := by simpa [Node.kids] using hn
+      rcases insertPointR_spec S r S.textTy p hc with ⟨hp, hcr⟩ | ⟨d, sd, i, hd, hat, hcr⟩
+      · rw [hp, R.pos_eq] at hm hal ⊢
+        simp only [marksAllowedAt, hr] at hm
+        simp only [pairAligned, hr] at hal
+        simp only [insertGuard, hr, hm, Bool.and_true]
+        by_cases ho : r.textOffset = 0
+        · simp [insideTextGuardR, ho]
+        · obtain ⟨s, m, hs, hlt⟩ := R.in_text ho
+          have hsp : splitOk s r.textOffset = true := by
+            simp only [RPos.pairOk, hs, Bool.or_eq_true, decide_eq_true_eq] at hal
+            exact hal.resolve_left ho
+          obtain ⟨hsplit, hidx⟩ := list_split_at _ _ _ hs
+          have hpv := path_valid S R hv r.depth (Nat.le_refl _)
+          obtain ⟨tyP, aP, mP, ctx, eP, _⟩ := Resolved.lvl hr hn' r.depth (Nat.le_refl _)
+          have hvL : S.validContent (S.tyOf r.parent) r.parent.kids = true :=
+            validContent_of_checkNode S r.parent tyP aP mP eP hpv
+          have hplen : (r.parent.kids.take (r.index r.depth)).length = r.index r.depth := by
+            rw [List.length_take]; omega
+          have hcr' : S.canReplaceWith (S.tyOf r.parent)
+              (r.parent.kids.take (r.index r.depth) ++ .text s m :: r.parent.kids.drop (r.index r.depth + 1))
+              (r.parent.kids.take (r.index r.depth)).length (r.parent.kids.take (r.index r.depth)).length S.textTy []
+              = some true := by
+            unfold Schema.nodeCanReplaceWith at hcr
+            split at hcr
+            · simp at hcr
+            · rw [← hsplit, hplen]; exact hcr
+          have hfin := canReplace_text_between S hts (S.tyOf r.parent) _ _ s m n htext
+            (by rw [← hsplit]; exact hvL) hm hcr'
+          rw [← hsplit, hplen] at hfin
+          simp only [insideTextGuardR, hs, hsp, Bool.true_and, Bool.or_eq_true, beq_iff_eq]
+          right
+          unfold Schema.nodeCanReplace
+          rw [if_neg (by omega)]
+          simpa using hfin
+      · obtain ⟨rp, hrp, _, _, _, hto⟩ := boundary_resolve S hr hn' d sd i p (.inl hd) hat
+        simp only [marksAllowedAt, hrp] at hm
+        simp [insertGuard, hrp, insideTextGuardR, hto, hm]
+
+/-- **typing text at an insert point succeeds** — `insertPoint_insert_applies` without a guard on the content
+    expression: valid normal-form document, `TextStable` schema, a non-empty text node whose marks the parent of `p` allows,
+    `p` pair-aligned -/
+theorem insertPoint_insert_text_applies (S : Schema) (hts : C01.TextStable S) (doc : Node) (pos : Nat) (p : Nat)
+    (n : Node) (hdoc : C01.IsElem doc) (hv : C01.Valid S doc) (hn : fnorm doc.kids = true)
+    (hvn : S.checkNode n = true) (hnn : n.norm = true) (htext : S.tyOf n = S.textTy)
+    (hal : pairAligned doc p = true) (hm : marksAllowedAt S doc p n = true)
+    (hc : insertPoint S doc pos S.textTy = some (some p)) :
+    replaceStep S doc p p ⟨[n], 0, 0⟩ = .ok (some (.replace p p ⟨[n], 0, 0⟩ false)) ∧
+    ∃ doc', S.apply (.replace p p ⟨[n], 0, 0⟩ false) doc = .ok doc' ∧ C01.Valid S doc' :=
+  insertPoint_insert_applies S hts doc pos S.textTy p n hdoc hv hn hvn hnn htext
+    (insertGuard_of_text S hts doc pos p n hdoc hv hn htext hal hm hc) hc
+
+/-- an instance: "x" typed between "a" and "b" of `doc(p("ab"))` -/
+example : ∃ doc', exSchema.apply (.replace 2 2 ⟨[.text [120] []], 0, 0⟩ false) exDocT = .ok doc' ∧
+    C01.Valid exSchema doc' :=
+  (insertPoint_insert_text_applies exSchema ex_stable exDocT 2 2 (.text [120] []) rfl rfl rfl rfl rfl rfl rfl rfl rfl).2
 
 /-! ### INSERT-END -/
 
